@@ -114,7 +114,22 @@ func drawScript(t *rapid.T, tag byte, withDialect bool, key *[32]byte, maxSeg in
 			out = append(out, seg{kind: k, bytes: f.Bytes(), idx: idx})
 			idx++
 		case "valid-raw", "valid-debug":
-			f := tagged(tag, idx, strings.TrimPrefix(k, "valid-"), v2, key, ts)
+			tsUse := ts
+			if key != nil && rapid.IntRange(0, 7).Draw(t, "ten_seconds_older_than_the_newest") == 0 {
+				tsUse = ts - 1000000 // exactly on the edge of the window (or inside it): accepted
+			}
+			f := tagged(tag, idx, strings.TrimPrefix(k, "valid-"), v2, key, tsUse)
+			if k == "valid-debug" && f.V2 && rapid.IntRange(0, 5).Draw(t, "sender_knows_more_extension_fields") == 0 {
+				// the sender's definition of the message has extension fields this dialect does not know: bytes behind
+				// the last known field, ignored by a receiver, covered by the checksum as sent
+				tail := rapid.SliceOfN(rapid.Byte(), 1, 4).Draw(t, "unknown_extension_bytes")
+				tail[len(tail)-1] |= 1
+				f.Payload = append(lay(debugMsgID).EncodeFull(debugValue(tag, idx), true), tail...)
+				f.Checksum = f.ChecksumFor(lay(debugMsgID).CRCExtra)
+				if key != nil {
+					f.Sig = f.SignatureFor(*key)
+				}
+			}
 			own := false
 			if rapid.IntRange(0, 5).Draw(t, "sender_uses_the_node's_own_ids") == 0 {
 				own = true
